@@ -491,6 +491,14 @@ impl Server {
                     .to_key(&self.base_path),
             )
             .and_then(|parser| parser.url_at(to_position(params.text_document_position.position)))
+            // a link to something that is not a note (not written yet, an external address)
+            // cannot be renamed
+            .filter(|url| {
+                self.database
+                    .graph()
+                    .maybe_key(&Key::from_rel_link_url(url, relative_to))
+                    .is_some()
+            })
             .map(|url| {
                 let key = Key::from_rel_link_url(&url, relative_to);
 
